@@ -24,6 +24,10 @@ pub unsafe fn register(regs: LanguageGlobs) -> Result<()> {
 
 fn register_impl(regs: LanguageGlobs) -> Result<Vec<(SgLang, Types)>> {
   let mut lang_globs = vec![];
+  // a file claimed by several languages goes to the first entry: fix the order,
+  // do not leave it to the map's hash seed
+  let mut regs: Vec<_> = regs.into_iter().collect();
+  regs.sort_by(|a, b| a.0.cmp(&b.0));
   for (lang, globs) in regs {
     let lang = SgLang::from_str(&lang).with_context(|| EC::UnrecognizableLanguage(lang))?;
     // Note: we have to use lang.to_string() for normalized language name
